@@ -66,7 +66,34 @@ CONF = {
         "shares / no limit (the statement's 'an undeclared limit means unlimited')",
         "CFS quota disabled (BE suppression by cfsQuota policy) means quota -1 at both levels",
         "a declared amount of zero is treated like an undeclared one (the standard conversion maps <= 0 to unlimited / minimum shares)",
-        "normalization ratios are exact binary fractions with two decimals (1.0, 1.5, 2.0): the hook divides in float64",
+        "normalization ratios are exact binary fractions with two decimals (0.5, 1.0, 1.25, 1.5, 1.75, 2.0, 3.0): the hook divides in "
+        "float64; successive ratios differ by at least 0.25 (the rule ignores changes below 0.01)",
+        "the configuration is STATE of the agent: the ratio / cfs switch in force for a hook call is what the LAST Node / NodeSLO "
+        "object delivered to the real rule parsers (parseRuleForNodeMeta / parseRuleForNodeSLO) says - annotation absent or a "
+        "ratio <= 1 means no division, whatever was learnt before; a fresh agent (no delivery yet) has cfs quota enabled and no ratio",
+        "a MALFORMED cpu-normalization-ratio annotation (not a positive number: 'abc', '0', '-1.50', '') is outside 'all scale "
+        "ratios': the specification accepts both readings - it configures nothing (no division) or the delivery is ignored (the "
+        "ratio in force stays). The real code does the latter (GetCPUNormalizationRatio errors, the rule framework logs and keeps "
+        "the rule, in this hook and in the cpunormalization hook alike): noted, not alarmed "
+        "(VERIF_C14_STRICT_INVALID=1 in the environment of a hand-run trace validation shows the histories that depend on it)",
+        "a delivered NodeSLO carries Enable whenever it carries a strategy (it is the MERGED NodeSLO); strategy absent = default "
+        "strategy (cpuset policy, cfs quota stays enabled)",
+        "the declared amounts are those of the pod SPEC. An extended-resource-spec annotation the pod carries before admission "
+        "(equal, subset, superset, other amounts, somebody else's, empty) declares nothing: the chain webhook -> annotation -> "
+        "hook must inject the conversion of the spec's amounts in every request mode (proxy / nri read the annotation the webhook "
+        "left, the reconciler prefers the pod object and falls back to the annotation per container)",
+        "a pod the webhook refuses (existing annotation not parseable) never reaches the agent and nothing is checked for it; if such "
+        "a pod is admitted it is checked like any other; the webhook refusing a pod whose annotations are well-formed is a "
+        "harness failure (exit 2), not a verdict",
+        "a BE pod whose spec declares no batch amount at all is outside the statement ('a best-effort pod using reclaimed "
+        "resources') whatever a stale annotation says: what is injected for it is recorded but not judged",
+        "container-level and pod-level hooks are observed as two events (conts, hook); the relation 'pod no tighter than a "
+        "container' is checked between a pod-level observation and the container-level observation made last under the same "
+        "configuration and request mode (values observed under different configurations are not compared: the rule-update "
+        "callbacks that re-apply existing cgroups are outside the statement)",
+        "pod-level rejections of BE pods with a non-declaring container fall into the registered known finding (same signature "
+        "as before, no context suffix); a breakage visible only at the pod level of such pods is therefore masked, the same "
+        "breakage is looked for in all-declaring pods and at the container level (own event, own signature)",
         "init containers and pod overhead are outside the statement (TODO in the code) and are not generated",
         "TLC integers are 32-bit: cpu <= 300000 milli-cores and memory <= 2^28 bytes per container, at most 6 containers",
     ],
